@@ -1,6 +1,19 @@
 """Per-property manifest entries. Only properties with a working check appear in CHECKS."""
 
 CHECKS = {
+    "C20": {
+        "level": "exploration",
+        "technique": "hypothesis-generated templates built line by line with a layout map; by-construction expected (line, function, messages, comments) compared both ways for Babel and Lingua",
+        "text": ("Templates are built physical line by physical line from drawn plans that plant uniquely numbered _() / gettext() / "
+                 "ngettext() calls in every Python-bearing construct kind (expressions, filter arguments, control lines incl. "
+                 "elif/except/continuations, <% %> and <%! %> lines, def/block/page signatures, <%call expr>, <%ns:def> attributes), "
+                 "nested in defs/calls/blocks, LF/CRLF, utf-8/cp1251/latin-1 with every declaration style, with decoys in text, "
+                 "<%text>, <%doc>, ## comments and translator comments at distance 0-2; the Babel tuples and Lingua messages must "
+                 "equal the expected multiset (missing, spurious, duplicated, wrong line/function/message/comment each keyed). A fixed "
+                 "corpus exercises the catalogued findings; the search continues behind the two recorded known findings. Sampled."),
+        "note": ("Trusted: the plan builder vf/gen/c20_build.py (line bookkeeping), Babel and Lingua. Lingua messages carry no function "
+                 "name. Calls are kept on one physical line."),
+    },
     "C04": {
         "level": "exploration",
         "technique": "exhaustive binding-site x read-site matrix; resolution-order model from the statement; reserved-name and kwargs enumeration",
